@@ -11,14 +11,18 @@ theorem scanAct_shape (o : Oracle) (k : Nat) (dry : Bool) (cfg : GroupCfg) (st :
     let f := tryDelete o k g (forceCands dry pods force)
     let r := tryDelete o f.k f.val.g (reaperCands dry cfg pods nowMock tainted)
     let j := (scanAct o k dry cfg st g pods h nowMock nowReal untainted tainted force mj delta).j
+    (j = mj ++ f.j) ∨
     (delta < 0 ∧ (j = mj ++ f.j ++ r.j ∨
         j = mj ++ f.j ++ r.j ++ (scaleDownTaint o r.k dry cfg st (nowReal / 1000000000) h.old untainted (-delta)).j)) ∨
     (delta > 0 ∧ j = mj ++ f.j ++ (scaleUp o f.k dry cfg st f.val.g nowReal h.new tainted delta).j) ∨
     (delta = 0 ∧ j = mj ++ f.j ++ r.j) := by
   intro f r j
-  show _ ∨ _ ∨ _
+  show _ ∨ _ ∨ _ ∨ _
   simp only [j]
   unfold scanAct; dsimp only
+  split
+  · left; rfl
+  right
   split
   · rename_i hneg
     left
